@@ -213,23 +213,29 @@ def finishStream (P : Parsers V T) (suffix : Bytes) (q : Nat) (info : V) (rel n 
     | .ok _ => .ok (.stream info (q + rel) (q + rel + n))
     | .err => .err | .panic => .panic | .oof => .oof
 
-/-- the `XRef::Raw` branch of `resolve_ref`; `resolveLen` is `resolve.resolve_flags(r, INTEGER, _)` -/
+/-- `parse_stream_object`: the length is the direct integer or what `resolve_flags(r, INTEGER, _)`
+    delivers through `as_usize`; `resolveLen` is that call -/
+def streamWithLen (P : Parsers V T) (resolveLen : Nat → Out (Obj V)) (suffix : Bytes) (q : Nat)
+    (info : V) (rel : Nat) : LenSpec → Out (Obj V)
+  | .direct n => finishStream P suffix q info rel n
+  | .indirect lid =>
+    match resolveLen lid with
+    | .ok (.plain v) =>
+      match P.asLen v with
+      | .ok n => finishStream P suffix q info rel n
+      | .err => .err | .panic => .panic | .oof => .oof
+    | .ok (.stream _ _ _) => .err
+    | .err => .err | .panic => .panic | .oof => .oof
+  | .bad => .err
+
+/-- the `XRef::Raw` branch of `resolve_ref` -/
 def directBody (P : Parsers V T) (resolveLen : Nat → Out (Obj V)) (buf : Bytes) (start : Nat)
     (flags : Flags) (pos : Nat) : Out (Obj V) :=
   match suffixAt buf start pos with
   | .ok (q, suffix) =>
     match P.objAt flags suffix with
     | .ok (.plain v) => .ok (.plain v)
-    | .ok (.stream info rel (.direct n)) => finishStream P suffix q info rel n
-    | .ok (.stream info rel (.indirect lid)) =>
-      match resolveLen lid with
-      | .ok (.plain v) =>
-        match P.asLen v with
-        | .ok n => finishStream P suffix q info rel n
-        | .err => .err | .panic => .panic | .oof => .oof
-      | .ok (.stream _ _ _) => .err
-      | .err => .err | .panic => .panic | .oof => .oof
-    | .ok (.stream _ _ .bad) => .err
+    | .ok (.stream info rel ls) => streamWithLen P resolveLen suffix q info rel ls
     | .err => .err | .panic => .panic | .oof => .oof
   | .err => .err | .panic => .panic | .oof => .oof
 
